@@ -25,6 +25,11 @@ class CJumpPass(InstructionPass):
             else:
                 label = instruction.lab_no
             block = instruction.block
+            # The other target is no longer reached from this block:
+            for target in instruction.targets:
+                if target is not label:
+                    for phi in target.phis:
+                        phi.del_incoming(block)
             block.remove_instruction(instruction)
             block.add_instruction(ir.Jump(label))
             instruction.delete()
